@@ -494,6 +494,9 @@ func (x *Decimal) Float(z *big.Float) *big.Float {
 // If x is too large to be represented by a float32 (|x| > math.MaxFloat32),
 // the result is (+Inf, Above) or (-Inf, Below), depending on the sign of x.
 func (x *Decimal) Float32() (float32, Accuracy) {
+	if f, a, ok := x.outOfFloatRange(); ok {
+		return float32(f), a
+	}
 	z := x.Float(new(big.Float).SetPrec(32))
 	f, a := z.Float32()
 	// If big.Float -> float64 conversion is accurate, use Decimal->Float accuracy.
@@ -509,6 +512,9 @@ func (x *Decimal) Float32() (float32, Accuracy) {
 // If x is too large to be represented by a float64 (|x| > math.MaxFloat64),
 // the result is (+Inf, Above) or (-Inf, Below), depending on the sign of x.
 func (x *Decimal) Float64() (float64, Accuracy) {
+	if f, a, ok := x.outOfFloatRange(); ok {
+		return f, a
+	}
 	z := x.Float(new(big.Float).SetPrec(64))
 	f, a := z.Float64()
 	// If big.Float -> float64 conversion is accurate, use Decimal->Float accuracy.
@@ -516,6 +522,25 @@ func (x *Decimal) Float64() (float64, Accuracy) {
 		a = z.Acc()
 	}
 	return f, Accuracy(a)
+}
+
+// outOfFloatRange handles finite x far beyond the range of float64 (and
+// float32): the conversion through a big.Float would overflow or underflow
+// there and report the saturated result as Exact.
+func (x *Decimal) outOfFloatRange() (f float64, acc Accuracy, ok bool) {
+	if x.form != finite || (-400 <= x.exp && x.exp <= 400) {
+		return 0, Exact, false
+	}
+	if x.exp > 0 {
+		if x.neg {
+			return math.Inf(-1), Below, true
+		}
+		return math.Inf(1), Above, true
+	}
+	if x.neg {
+		return math.Copysign(0, -1), Above, true
+	}
+	return 0, Below, true
 }
 
 // Int returns the result of truncating x towards zero; or nil if x is an
